@@ -377,3 +377,23 @@ def line(n):
 def need(cond, msg):
     if not cond:
         raise AnalysisError(msg)
+
+
+LOGGERS = {'debug', 'info', 'warning', 'error', 'util.debug', 'util.info', 'util.sub_debug', 'sub_debug',
+           'util.sub_warning', 'sub_warning'}
+
+
+def logging_x_edges(fi):
+    """Exception edges of nodes that do nothing but call a logging helper: a rule about what happens
+    "on every way out" does not mean the way out of a failing log line."""
+    cfg = fi.cfg
+    out = set()
+    for n in cfg.nodes:
+        if n.id not in cfg.live or n.kind != 'stmt' or not isinstance(n.ast, ast.Expr):
+            continue
+        cs = cfg.calls_at(n)
+        if cs and isinstance(n.ast.value, ast.Call) and ast.unparse(n.ast.value.func) in LOGGERS:
+            for (b, l) in cfg.succ[n.id]:
+                if l == 'x':
+                    out.add((n.id, b, l))
+    return out
